@@ -28,7 +28,7 @@ enum Place {
 }
 
 /// items: name, kind, dependencies (names of other items)
-const ITEMS: &[(&str, &[&str])] = &[("k", &[]), ("m", &[]), ("fa", &["k"]), ("P", &[]), ("E", &[]), ("bump", &["m"])];
+const ITEMS: &[(&str, &[&str])] = &[("k", &[]), ("m", &[]), ("fa", &["k"]), ("P", &[]), ("E", &[]), ("bump", &["m"]), ("fe", &["k"]), ("fl", &["m"])];
 
 struct Layout {
     /// file index per item (0 = main)
@@ -76,6 +76,9 @@ fn item_source(name: &str, r: &dyn Fn(&str) -> String) -> String {
         "P" => "P :: blob { x: int }\n".into(),
         "E" => "E :: enum\n    A int,\n    B,\nend\n".into(),
         "bump" => format!("bump :: fn do\n    {} += 1\nend\n", r("m")),
+        // the constant only in an elif condition, the variable only in a loop condition and a case-else arm
+        "fe" => format!("fe :: fn q: int -> int\n    if q < 0 do\n        0\n    elif q < {} do\n        1\n    else do\n        2\n    end\nend\n", r("k")),
+        "fl" => format!("fl :: fn -> int\n    i := 0\n    loop i < {} do\n        i += 4\n    end\n    case (if i > 0 do 1 else 2 end) do\n        else do\n            i += {}\n        end\n    end\n    i\nend\n", r("m"), r("m")),
         _ => unreachable!(),
     }
 }
@@ -90,6 +93,8 @@ fn start_source(items: &[&str], r: &dyn Fn(&str) -> String) -> String {
             "P" => s.push_str(&format!("    pp: {} = {} {{ x: 4 }}\n    print(pp.x)\n", r("P"), r("P"))),
             "E" => s.push_str(&format!("    ee := {}.A 5\n    case ee do\n        A q -> do\n            print(q)\n        end\n        else do end\n    end\n    print(ee == {}.B)\n", r("E"), r("E"))),
             "bump" => s.push_str(&format!("    {}()\n    {}()\n", r("bump"), r("bump"))),
+            "fe" => s.push_str(&format!("    print({}(2))\n    print({}(5))\n", r("fe"), r("fe"))),
+            "fl" => s.push_str(&format!("    print({}())\n", r("fl"))),
             _ => {}
         }
     }
@@ -230,6 +235,9 @@ fn build(l: &Layout, items: &[&str], mutation: Option<(&str, usize)>) -> Option<
         }
         if f == 0 {
             text.push_str(&start_source(items, &r));
+        } else {
+            // every other module has a private `start` of its own that nobody imports
+            text.push_str(&format!("start :: fn do\n    print(\"start of module {}\")\nend\n", f));
         }
         files.insert(file_path(f, &l.places), text);
     }
@@ -259,9 +267,9 @@ fn run_files(files: &Files) -> (Outcome, Vec<String>) {
 pub fn run(run: &mut Run) {
     let thorough = run.thorough();
     let item_sets: Vec<Vec<&str>> = if thorough {
-        vec![vec!["k", "m", "fa", "P"], vec!["k", "fa", "E", "bump", "m"], vec!["P", "E", "fa", "k"], vec!["m", "bump", "k", "fa", "P", "E"]]
+        vec![vec!["k", "m", "fa", "P"], vec!["k", "fa", "E", "bump", "m"], vec!["P", "E", "fa", "k"], vec!["m", "bump", "k", "fa", "P", "E"], vec!["k", "fe", "m", "fl"], vec!["fe", "fl", "k", "m", "bump"]]
     } else {
-        vec![vec!["k", "m", "fa", "P"], vec!["k", "fa", "E", "bump", "m"]]
+        vec![vec!["k", "m", "fa", "P"], vec!["k", "fa", "E", "bump", "m"], vec!["k", "fe", "m", "fl"]]
     };
     let mut cases: Vec<(usize, Layout)> = Vec::new();
     for (si, items) in item_sets.iter().enumerate() {
@@ -435,7 +443,7 @@ pub fn run(run: &mut Run) {
         }
     });
     run.stats = Stats::merge_all(accs);
-    run.rule = "item sets of 4-6 globals (constant, mutable, function using the constant, blob, enum, function mutating the mutable); every assignment of the items to main + 1..2 further files x every placement of those files (root, sub-folder, sub/exports.sy) x import style per ordered file pair (use + qualified name, use as alias, from use, from use as; parenthesised lists when several names; /-rooted paths from sub-folder files; cyclic imports arise when items reference main or each other); each project also compiled with the main file spelled `main.sy`, `./main.sy`, `p/main.sy`, `../p/main.sy`, `./p/../p/main.sy` from matching working directories (same behaviour, every file read once under its normalised path); per project three families of negative twins (each import dropped, a missing name/module, a colliding alias); non-trivial = every project; distinct by file map".into();
+    run.rule = "item sets of 4-6 globals (constant, mutable, function using the constant, blob, enum, function mutating the mutable, function reading the constant only in an elif condition, function reading the variable only in a loop condition and a case-else arm); every non-main module also defines a private `start`; every assignment of the items to main + 1..2 further files x every placement of those files (root, sub-folder, sub/exports.sy) x import style per ordered file pair (use + qualified name, use as alias, from use, from use as; parenthesised lists when several names; /-rooted paths from sub-folder files; cyclic imports arise when items reference main or each other); each project also compiled with the main file spelled `main.sy`, `./main.sy`, `p/main.sy`, `../p/main.sy`, `./p/../p/main.sy` from matching working directories (same behaviour, every file read once under its normalised path); per project three families of negative twins (each import dropped, a missing name/module, a colliding alias); non-trivial = every project; distinct by file map".into();
     run.bounds = json!({"item_sets": item_sets, "projects": cases.len(), "style_vectors": if thorough {16} else {4}});
     run.assumptions = vec![
         "the reference behaviour is that of the single-file program (compiled and run the same way), which C01 ties to the source semantics".into(),
